@@ -250,6 +250,8 @@ def panic_site_sig(loc, msg):
     try:
         path, line, _col = loc.rsplit(":", 2)
         line = int(line)
+        if not path.startswith(REPO + "/"):
+            return "outside-repo:%s||%s" % (os.path.basename(path), msg_class(msg))
         if path not in _src_cache:
             with open(path, encoding="utf-8", errors="replace") as f:
                 _src_cache[path] = f.read().split("\n")
@@ -345,11 +347,13 @@ class Check:
         for kid, (k, vs) in sorted(hit.items()):
             print("KNOWN-FINDING: property=%s %s [%s; observed %d time(s) in this run]" % (
                 self.pid, k.get("what_fails", ""), kid, sum(v["count"] for v in vs)))
-        for v in new:
+        for v in new[:20]:
             path = write_replay(self.pid, v, self.tier, self.seed)
             print("VIOLATION property=%s replay=%s" % (self.pid, path))
             print("  what: %s" % v["what"])
             print("  sig:  %s" % v["sig"])
+        if len(new) > 20:
+            print("  ... and %d more distinct violation signatures (listed in the evidence file)" % (len(new) - 20))
         wall = time.time() - self.t0
         cov = {
             "evaluations": int(self.evaluations),
